@@ -221,6 +221,9 @@ def impl_rx(hc, reads):
     return obs
 
 
+_DEBUG_LOGGING = [False]
+
+
 def judge(ctx: Ctx, cipher, case, obs, replay_kind, rep_override=None):
     """The property, stated on the observed behaviour with the reference receiver."""
     stream, reads, payloads = case["stream"], case["reads"], case["payloads"]
@@ -239,6 +242,8 @@ def judge(ctx: Ctx, cipher, case, obs, replay_kind, rep_override=None):
     }
     if rep_override is not None:
         rep = dict(rep_override, connection_payload_sizes=rep["payload_sizes"], connection_tamper=case["kind"])
+    if _DEBUG_LOGGING[0]:
+        rep["logging"] = "pyhap-debug"
     for r, o in zip(reads, obs):
         n += len(r)
         if failed:
@@ -813,6 +818,20 @@ def run(ctx: Ctx):
     run_upgrade_boundary(ctx, hc)
     run_rekey(ctx, hc)
     run_interleaved(ctx, hc)
+    # a bounded repeat with the pyhap logger at DEBUG (behaviour must not depend on the logging configuration)
+    from common import pyhap_debug_logging
+
+    saved = ctx.budget_scale
+    ctx.budget_scale = 0.2
+    try:
+        with pyhap_debug_logging():
+            _DEBUG_LOGGING[0] = True
+            run_real_stream(ctx, hc)
+            run_protocol_level(ctx, hc)
+            ctx.stats.hit("op", "repeat-under-debug-logging")
+    finally:
+        _DEBUG_LOGGING[0] = False
+        ctx.budget_scale = saved
 
 
 def search(ctx: Ctx):
@@ -857,12 +876,17 @@ def replay(ctx: Ctx, r):
         pos += n
     key_in = ref.hkdf(SHARED, ref.SALT, ref.C2A)
     case = {"payloads": [b"?" * n for n in r["payload_sizes"]], "kind": r["tamper"], "stream": stream, "reads": reads}
+    import contextlib
+
+    from common import pyhap_debug_logging
+
     if r["kind"] == "mock-rx":
         with mock.patch.object(hc, "ChaCha20Poly1305", PyMock):
             obs = impl_rx(hc, reads)
         judge(ctx, ref.Mock(key_in), case, obs, "mock-rx")
     else:
-        obs = impl_rx(hc, reads)
+        with pyhap_debug_logging() if r.get("logging") else contextlib.nullcontext():
+            obs = impl_rx(hc, reads)
         judge(ctx, ref.Real(key_in), case, obs, "real-rx")
     print("reads", r["reads"], "->", _short(obs))
     for f in ctx.failures:
